@@ -115,7 +115,7 @@ func init() {
 			if tier == "thorough" {
 				return []core.Suite{{Name: "states", N: 3000, CaseTimeout: 600}}
 			}
-			return []core.Suite{{Name: "states", N: 96, CaseTimeout: 600}}
+			return []core.Suite{{Name: "states", N: 240, CaseTimeout: 600}}
 		},
 		Run: func(c *core.Ctx) {
 			tag := uint64(c.Seed)<<32 | uint64(c.Index)
